@@ -9,6 +9,7 @@ import (
 	"path/filepath"
 	"regexp"
 	"strings"
+	"syscall"
 	"time"
 )
 
@@ -193,7 +194,7 @@ func writeReplay(verif, repo string, u *Unit, dir string, fn, tag string, params
 	if err := os.WriteFile(filepath.Join(dir, "overlay.json"), ob, 0o644); err != nil {
 		return err
 	}
-	sh := fmt.Sprintf("#!/bin/sh\n# re-runs this counterexample on the natively compiled code of %s\nexport GOFLAGS=-mod=mod GOPROXY=off GOSUMDB=off GOTOOLCHAIN=local\ncd %s && VERIF_CASE=%s/case.json go test -tags verif -vet=off -count=1 -overlay %s/overlay.json -run 'TestVerifReplay$' -v %s\n",
+	sh := fmt.Sprintf("#!/bin/sh\n# re-runs this counterexample on the natively compiled code of %s\nexport GOFLAGS=-mod=mod GOPROXY=off GOSUMDB=off GOTOOLCHAIN=local\nulimit -v 12000000 2>/dev/null\ncd %s && VERIF_CASE=%s/case.json go test -tags verif -vet=off -count=1 -overlay %s/overlay.json -run 'TestVerifReplay$' -v %s\n",
 		u.Pkg, repo, dir, dir, u.Pkg)
 	return os.WriteFile(filepath.Join(dir, "replay.sh"), []byte(sh), 0o755)
 }
@@ -203,6 +204,9 @@ func runReplay(dir string, timeout time.Duration) (reproduced bool, failedTags [
 	ctx, cancel := context.WithTimeout(context.Background(), timeout)
 	defer cancel()
 	cmd := exec.CommandContext(ctx, "/bin/sh", filepath.Join(dir, "replay.sh"))
+	cmd.SysProcAttr = &syscall.SysProcAttr{Setpgid: true}
+	cmd.Cancel = func() error { return syscall.Kill(-cmd.Process.Pid, syscall.SIGKILL) }
+	cmd.WaitDelay = 5 * time.Second
 	b, _ := cmd.CombinedOutput()
 	out = string(b)
 	_ = os.WriteFile(filepath.Join(dir, "replay.out"), b, 0o644)
